@@ -116,6 +116,13 @@ Proof.
   destruct ok; [|exact H]. eapply Q_trans; [exact H|]. eapply Q_trans; [|apply IH]. qtv.
 Qed.
 
+Lemma Q_new_follower n id nx : Q n (new_follower n id nx). Proof. unfold new_follower. qtv. Qed.
+Lemma Q_new_followers nx ids : forall n, Q n (fold_left (fun m id => new_follower m id nx) ids n).
+Proof.
+  induction ids as [|id ids IH]; intros n; cbn [fold_left]; [apply Q_refl|].
+  eapply Q_trans; [apply Q_new_follower|apply IH].
+Qed.
+
 Lemma Q_next_configuration now n c : Q n (next_configuration now n c).
 Proof.
   unfold next_configuration. destruct c as [nx|]; [|apply Q_fail].
@@ -123,7 +130,9 @@ Proof.
   assert (H1 : Q n n1).
   { subst n1. destruct (is_member nx (n_id n)); [apply Q_refl|].
     eapply Q_trans; [|apply Q_reset]. destruct (role_eqb (n_role n) Leader); [apply Q_stepdown|apply Q_refl]. }
-  eapply Q_trans; [exact H1|]. qtv.
+  clearbody n1. eapply Q_trans; [exact H1|].
+  match goal with |- Q n1 (fold_left ?f ?l ?n2 <| n_conf := ?c |>) =>
+    apply Q_trans with n2; [qtv|]; apply Q_trans with (fold_left f l n2); [apply Q_new_followers|qtv] end.
 Qed.
 
 Lemma Q_apply_configuration now n c : Q n (apply_configuration now n c).
@@ -335,10 +344,17 @@ Proof.
   eapply Q_trans; [|apply Q_new_opmanager]. qtv.
 Qed.
 
-Lemma Q_send_rv_to_peers now n : Q n (send_rv_to_peers now n).
+Lemma R_send_rv_to_peers now n : coh n -> R n (send_rv_to_peers now n).
 Proof.
-  unfold send_rv_to_peers. destruct (is_single (conf_of n) (n_id n)); [apply Q_become_leader|].
-  unfold new_round. qtv.
+  intros Hc. unfold send_rv_to_peers. destruct (is_single (conf_of n) (n_id n)).
+  - eapply R_trans; [|apply Q_R, Q_become_leader].
+    destruct (role_eqb (n_role n) PreCandidate); [|apply R_refl].
+    set (n0 := n <| n_role := Candidate |>).
+    assert (H0 : Q n n0) by qtv.
+    assert (C0 : coh n0) by (eapply coh_R; [apply Q_R; exact H0|exact Hc]).
+    clearbody n0. eapply R_trans; [apply Q_R; exact H0|].
+    apply R_set_persist; [exact C0|lia|]. intros E. lia.
+  - apply Q_R. unfold new_round. qtv.
 Qed.
 
 Lemma R_election now n : coh n -> R n (l_election now n).
@@ -352,11 +368,13 @@ Proof.
   assert (H1 : Q n0 n1) by (subst n1; destruct (role_eqb (n_role n0) Follower); [qtv|apply Q_refl]).
   assert (C1 : coh n1) by (eapply coh_R; [apply Q_R; exact H1|exact C0]).
   eapply R_trans; [apply Q_R; eapply Q_trans; [exact H0|exact H1]|].
-  eapply R_trans; [|apply Q_R, Q_send_rv_to_peers].
-  destruct (role_eqb (n_role n1) Candidate); [|apply R_refl].
-  replace (n1 <| n_term ::= N.succ |> <| n_vote := Some (n_id n1) |>)
-    with (n1 <| n_term := N.succ (n_term n1) |> <| n_vote := Some (n_id n1) |>) by reflexivity.
-  apply R_set_persist; [exact C1|lia|]. intros E. lia.
+  assert (H2 : R n1 (if role_eqb (n_role n1) Candidate
+                     then persist (n1 <| n_term ::= N.succ |> <| n_vote := Some (n_id n1) |>) else n1)).
+  { destruct (role_eqb (n_role n1) Candidate); [|apply R_refl].
+    replace (n1 <| n_term ::= N.succ |> <| n_vote := Some (n_id n1) |>)
+      with (n1 <| n_term := N.succ (n_term n1) |> <| n_vote := Some (n_id n1) |>) by reflexivity.
+    apply R_set_persist; [exact C1|lia|]. intros E. lia. }
+  eapply R_trans; [exact H2|]. apply R_send_rv_to_peers. eapply coh_R; [exact H2|exact C1].
 Qed.
 
 Lemma Q_bump n r : Q n (bump_round n r). Proof. unfold bump_round. qtv. Qed.
@@ -381,6 +399,8 @@ Proof.
 Qed.
 
 Lemma Q_set_follower n id f : Q n (set_follower n id f). Proof. unfold set_follower. qtv. Qed.
+Lemma Q_set_fobj n id g f : Q n (set_fobj n id g f).
+Proof. unfold set_fobj. destruct (_ =? g); [apply Q_set_follower|qtv]. Qed.
 
 Lemma Q_is_send n peer : Q n (fst (l_is_send n peer)).
 Proof.
@@ -398,35 +418,37 @@ Proof.
   - destruct (next_index (n_log n) <? f_next (get_follower n peer)); cbn [fst]; [apply Q_fail|apply Q_refl].
 Qed.
 
-Lemma R_ae_reply now n rid peer q p : coh n -> R n (fst (l_ae_reply now n rid peer q p)).
+Lemma R_ae_reply now n rid peer g q p : coh n -> R n (fst (l_ae_reply now n rid peer g q p)).
 Proof.
   intros Hc. unfold l_ae_reply.
   destruct (_ || _); [apply R_refl|].
   destruct (N.ltb_spec (n_term n) (aer_term p)); [cbn [fst]; apply R_become_follower; [exact Hc|lia]|].
   destruct (negb (ae_term q =? n_term n)); [apply R_refl|].
   apply Q_R.
-  set (n1 := bump_round n rid).
-  set (n2 := if has_quorum (conf_of n1) (round_count n1 rid) then try_apply_ro now n1 (round_stamp n1 rid) else n1).
+  set (n1 := if is_voter (conf_of n) peer then bump_round n rid else n).
+  set (n2 := if is_voter (conf_of n) peer && has_quorum (conf_of n1) (round_count n1 rid)
+             then try_apply_ro now n1 (round_stamp n1 rid) else n1).
+  assert (H1 : Q n n1) by (subst n1; destruct (is_voter (conf_of n) peer); [apply Q_bump|apply Q_refl]).
   assert (H2 : Q n n2).
-  { eapply Q_trans; [apply Q_bump|]. subst n2. fold n1.
-    destruct (has_quorum (conf_of n1) (round_count n1 rid)); [apply Q_try_apply_ro|apply Q_refl]. }
+  { eapply Q_trans; [exact H1|]. subst n2.
+    destruct (is_voter (conf_of n) peer && has_quorum (conf_of n1) (round_count n1 rid)); [apply Q_try_apply_ro|apply Q_refl]. }
   destruct (negb (aer_success p)).
   - destruct (aer_index p <=? n_lii _).
-    + eapply Q_trans; [exact H2|]. eapply Q_trans; [apply Q_set_follower|]. apply Q_is_send.
-    + cbn [fst]. eapply Q_trans; [exact H2|apply Q_set_follower].
+    + eapply Q_trans; [exact H2|]. eapply Q_trans; [apply Q_set_fobj|]. apply Q_is_send.
+    + cbn [fst]. eapply Q_trans; [exact H2|apply Q_set_fobj].
   - match goal with |- Q n (fst (if ?c then _ else _)) => destruct c end; cbn [fst]; [|exact H2].
-    eapply Q_trans; [exact H2|]. eapply Q_trans; [apply Q_set_follower|].
+    eapply Q_trans; [exact H2|]. eapply Q_trans; [apply Q_set_fobj|].
     match goal with |- Q _ (if ?c then _ else _) => destruct c end; [unfold signal_commit; qtv|apply Q_refl].
 Qed.
 
-Lemma R_is_reply now n peer q resp : coh n -> R n (l_is_reply now n peer q resp).
+Lemma R_is_reply now n peer g q resp : coh n -> R n (l_is_reply now n peer g q resp).
 Proof.
   intros Hc. unfold l_is_reply.
-  destruct (f_snap (get_follower n peer)) as [[s o]|]; [|apply R_refl].
+  destruct (f_snap (fobj n peer g)) as [[s o]|]; [|apply R_refl].
   destruct resp as [p|]; [|apply R_refl].
   destruct (N.ltb_spec (n_term n) (isr_term p)); [apply R_become_follower; [exact Hc|lia]|].
-  apply Q_R. destruct (negb (isr_written p =? is_offset q)); [apply Q_set_follower|].
-  destruct (negb (is_done q)); [apply Q_refl|apply Q_set_follower].
+  apply Q_R. destruct (negb (isr_written p =? is_offset q)); [apply Q_set_fobj|].
+  destruct (negb (is_done q)); [apply Q_refl|apply Q_set_fobj].
 Qed.
 
 Lemma Q_commit now n : Q n (lp_commit now n).
@@ -539,7 +561,7 @@ Proof.
   destruct (_ && _); [apply Q_respond|].
   pose proof (Q_append_configuration n {| c_index := 0; c_members := put id v (c_members (conf_of n)) |}) as H.
   destruct (append_configuration n _) as [n1 c']. cbn [fst] in H.
-  eapply Q_trans; [|apply Q_send_ae_to_peers]. eapply Q_trans; [|apply Q_set_follower].
+  eapply Q_trans; [|apply Q_send_ae_to_peers]. eapply Q_trans; [|apply Q_new_follower].
   eapply Q_trans; [|apply Q_upd_conf_cfg]. exact H.
 Qed.
 
@@ -573,7 +595,11 @@ Proof.
 Qed.
 
 Lemma Q_api_start now n : Q n (api_start now n).
-Proof. unfold api_start. destruct (negb _); [apply Q_refl|qtv]. Qed.
+Proof.
+  unfold api_start. destruct (negb _); [apply Q_refl|].
+  match goal with |- Q n (fold_left ?f ?l ?n2 <| n_contact := _ |> <| n_role := _ |>) =>
+    apply Q_trans with n2; [qtv|]; apply Q_trans with (fold_left f l n2); [apply Q_new_followers|qtv] end.
+Qed.
 
 Lemma restore_tvf m : tvf (restore m) = (n_id m, n_pterm m, n_pvote m, n_pterm m, n_pvote m, n_frozen m).
 Proof.
@@ -703,7 +729,8 @@ Qed.
 
 Lemma WS_step_deliver w c dup : Inv w -> WS w (step_deliver w c dup).
 Proof.
-  intros HI. unfold step_deliver. destruct (get_node w (c_dst c)) as [n|] eqn:G; [|apply WS_refl].
+  intros HI. unfold step_deliver. destruct (get_node w (c_dst c)) as [n|] eqn:G;
+    [|destruct dup; [apply WS_refl|apply WS_same_nodes; reflexivity]].
   apply get_node_id in G.
   destruct (n_frozen n); [destruct dup; [apply WS_refl|apply WS_same_nodes; reflexivity]|].
   pose proof (fun C => R_run_handler (w_now w) n (c_req c) C) as HR.
@@ -731,11 +758,11 @@ Proof.
          match goal with
          | |- WS w0 (set_node w0 (l_rv_reply _ _ _ _ _ _ _)) =>
              apply (WS_set_R w0 n _ G0); [intros C; apply R_rv_reply; exact C|exact HI0]
-         | |- WS w0 (set_node w0 (l_is_reply _ _ _ _ _)) =>
+         | |- WS w0 (set_node w0 (l_is_reply _ _ _ _ _ _)) =>
              apply (WS_set_R w0 n _ G0); [intros C; apply R_is_reply; exact C|exact HI0]
          end).
-  pose proof (fun C => R_ae_reply (w_now w) n (c_round c) (c_dst c) q p C) as HR.
-  destruct (l_ae_reply (w_now w) n (c_round c) (c_dst c) q p) as [n1 [isq|]]; cbn [fst] in HR;
+  pose proof (fun C => R_ae_reply (w_now w) n (c_round c) (c_dst c) (c_fgen c) q p C) as HR.
+  destruct (l_ae_reply (w_now w) n (c_round c) (c_dst c) (c_fgen c) q p) as [n1 [isq|]]; cbn [fst] in HR;
     (eapply WS_trans; [exact H0|]).
   - eapply WS_nodes_eq; [apply (WS_set_R w0 n n1 G0 HR HI0)|reflexivity].
   - apply (WS_set_R w0 n n1 G0 HR HI0).
@@ -772,6 +799,7 @@ Proof.
   - eapply WS_nodes_eq; [apply WS_on_node; [|exact HI]; intros m _; apply S_crash|reflexivity].
   - apply WS_on_node; [|exact HI]. intros m _. destruct (role_eqb (n_role m) Shutdown); [apply S_restart|apply S_refl].
   - apply WS_on_node; [|exact HI]. intros m _. apply Q_S, Q_upd_budget.
+  - apply WS_on_node; [|exact HI]. intros m _. apply Q_S. qtv.
   - apply WS_on_node; [|exact HI]. intros m _. apply Q_S. qtv.
   - destruct (get_node w n) as [m|] eqn:G; [|apply WS_refl]. destruct (is_up m); [|apply WS_refl].
     apply WS_step_task; [eapply get_node_id; exact G|exact HI].
